@@ -869,7 +869,9 @@ class Engine:
                 else:
                     raise Unsupported('no declared type for parameter ' + nme)
             env[nme] = self.fresh_of_type(nme, ty)
-        if args.vararg and types.get(args.vararg.arg, '').startswith('tuple:') and not args.kwarg:
+        if args.vararg and types.get(args.vararg.arg, '') == 'noargs' and not args.kwarg:
+            env[args.vararg.arg] = VTuple([], 'tuple')            # def f(a, b, *rest) verified for calls without extra arguments
+        elif args.vararg and types.get(args.vararg.arg, '').startswith('tuple:') and not args.kwarg:
             # def f(self, *index) verified for a declared shape of the argument tuple (one contract variant per shape)
             env[args.vararg.arg] = self.fresh_of_type(args.vararg.arg, types[args.vararg.arg])
         elif args.vararg or args.kwarg:
@@ -3249,7 +3251,9 @@ class Engine:
         post_env['__old__'] = old
         post_env['result'] = res
         n_before = len(self.pc)
-        for ens in c.get('ensures', []):
+        for ens in list(c.get('ensures', [])) + list(c.get('value_facts', [])):
+            # `value_facts`: what the proved yield clauses of a generator say about its VALUE at a call site (see `value_form`): assumed
+            # here, not re-checked when the generator itself is verified (there they are the yields_at clauses)
             if self.definitional(ens, post_env, c.get('modifies', [])):
                 continue
             self.assume(toz(self.spec_eval(ens, post_env)))
@@ -3823,7 +3827,7 @@ def sf_mapcall(eng, node, g, n, m, index):
 
 
 SPEC_FUNCS = {
-    'combs2': lambda eng, node, lo, hi: VCombs2(toz(lo), toz(hi)), 'cvar': _wrap(specs.cvar), 'degsum': _wrap(specs.degsum), 'gadj': _wrap(specs.gadj), 'pvar': _wrap(specs.pvar), 'isqf': _wrap(specs.isqf), 'pairlits': _wrap(specs.pairlits), 'sqr': _wrap(specs.sqr), 'mhas': lambda eng, node, m, k: z3.Select(m.present, _term(k)), 'mget': lambda eng, node, m, k: z3.Select(m.val, _term(k)), 'glo': lambda eng, node, g, i: z3.Select(g.lo, toz(i)), 'ghi': lambda eng, node, g, i: z3.Select(g.hi, toz(i)),
+    'combs2': lambda eng, node, lo, hi: VCombs2(toz(lo), toz(hi)), 'cvar': _wrap(specs.cvar), 'degsum': _wrap(specs.degsum), 'gadj': _wrap(specs.gadj), 'pvar': _wrap(specs.pvar), 'isqf': _wrap(specs.isqf), 'pairlits': _wrap(specs.pairlits), 'aps': _wrap(specs.aps), 'sqr': _wrap(specs.sqr), 'mhas': lambda eng, node, m, k: z3.Select(m.present, _term(k)), 'mget': lambda eng, node, m, k: z3.Select(m.val, _term(k)), 'glo': lambda eng, node, g, i: z3.Select(g.lo, toz(i)), 'ghi': lambda eng, node, g, i: z3.Select(g.hi, toz(i)),
     'gsingle': lambda eng, node, g, i: z3.Select(g.single, toz(i)), 'cnb': _wrap(specs.cnb), 'isorted': _wrap(specs.isorted), 'nbj': _wrap(specs.nbj), 'nbv': _wrap(specs.nbv), 'lnbrs': _wrap(specs.lnbrs),
     'mapcall': sf_mapcall, 'mrow': _wrap(specs.mrow), 'mcol': _wrap(specs.mcol),
     'evnest': _wrap(specs.evnest), 'dedges': _wrap(specs.dedges),
